@@ -1,4 +1,6 @@
 import RemocModel.Base.Wiring
+import RemocModel.Base.WiringForward
+import RemocModel.Link.ForwardWire5
 
 /-!
 # C05 — channel halves embedded in values are wired one-to-one to their counterparts
@@ -328,5 +330,193 @@ example : ((batch sv3).reverse)[0]? = some { port := 900, id := 900 } ∧ (sv3.m
 example : (connRun {} [.batchSent, .rejectNoPorts, .deliverResponse]).stay = .error ∧
     (connRun {} [.batchSent, .accept, .deliverResponse, .connLost]).travel = .error ∧
     connStep (connRun {} [.batchSent, .rejectNoPorts, .deliverResponse]) .deliverResponse = none := by decide
+
+end Remoc.Wiring
+
+/-! ### the forwarding hop as performed by the forwarder model (`chmux::forward`, `Received::Requests`) -/
+
+namespace Remoc.Link
+
+/-- **Requests are forwarded with their ids, in order, and request `k` follows connect `k`.**  In every
+reachable state of the forwarder model (as coded), for every forwarded batch with received ids `i_1..i_n`:
+the port requests passed to the downstream `connect` carry exactly these ids in this order, on pairwise distinct
+fresh ports; one task per request was spawned, and the `k`-th task owns request `k` and awaits connect `k`.
+For every spawned task: the connect it awaits carries the id of the request it owns, and the task accepts its
+request only if *that* connect was accepted, and rejects it — with `no_ports` as classified — only if *that*
+connect failed.  While a `connect` is in progress its argument carries the received ids. -/
+theorem forward_requests_paired (ca cb : Cfg) (f : Fwd) (h : FReachable .asCoded ca cb f) :
+    (∀ B ∈ f.batches,
+      B.ports.map (·.id) = B.ids ∧ (B.ports.map (·.port)).Nodup ∧ B.pairs.length = B.ids.length ∧
+      ∀ (k : Nat) (t : PairTask), B.pairs[k]? = some t → t.upIdx = k ∧ B.ids[k]? = some t.upId ∧ B.ports[k]? = some t.out) ∧
+    (∀ t ∈ f.tasks, t.out.id = t.upId ∧ TaskOk t) ∧
+    f.tasks.map PairTask.key = (f.batches.flatMap (·.pairs)).map PairTask.key ∧
+    (∀ ids ports, f.ph = .connect ids ports → ports.map (·.id) = ids) := by
+  have hp := fport_reachable .asCoded ca cb f h
+  have hB : ∀ B ∈ f.batches, B.pairs = pairFrom 0 B.ids B.ports := fun B hBm => (hp.batches B hBm).pairs
+  refine ⟨?_, ?_, hp.tasksKeys, hp.connIds⟩
+  · intro B hBm
+    obtain ⟨hids, hnd, _, _⟩ := hp.batches B hBm
+    have hlen : B.ports.length = B.ids.length := by rw [← hids]; simp
+    refine ⟨hids, hnd, by rw [hB B hBm, pairFrom_length]; omega, ?_⟩
+    intro k t hk
+    rw [hB B hBm] at hk
+    obtain ⟨h1, h2, h3, _⟩ := pairFrom_get 0 B.ids B.ports k t hk
+    exact ⟨by omega, h2, h3⟩
+  · intro t ht
+    refine ⟨?_, hp.tasksOk t ht⟩
+    have hk : t.key ∈ (f.batches.flatMap (·.pairs)).map PairTask.key := by
+      rw [← hp.tasksKeys]; exact List.mem_map.mpr ⟨t, ht, rfl⟩
+    obtain ⟨t0, ht0, hkey⟩ := List.mem_map.mp hk
+    obtain ⟨B, hBm, ht0B⟩ := List.mem_flatMap.mp ht0
+    rw [hB B hBm] at ht0B
+    have := pairFrom_id 0 B.ids B.ports (hp.batches B hBm).ids t0 ht0B
+    simp only [PairTask.key, Prod.mk.injEq] at hkey
+    rw [← hkey.2.1, ← hkey.2.2]; exact this
+
+
+theorem flatMap_ids_congr (bs : List Batch) (h : ∀ B ∈ bs, B.ports.map (·.id) = B.ids) :
+    bs.flatMap (fun B => B.ports.map (·.id)) = bs.flatMap (·.ids) := by
+  induction bs with
+  | nil => rfl
+  | cons B rest ih =>
+    simp only [List.flatMap_cons]
+    rw [h B (by simp), ih (fun B' hB' => h B' (by simp [hB']))]
+
+/-- **The ids on the downstream wire.**  As long as no downstream operation failed or was abandoned, the ids
+carried by the `PortData` frames the forwarder has put on the downstream link, followed by the ids the `connect`
+in progress has still to send, are exactly — in order, batch by batch — the ids of the port requests it received:
+those of all forwarded batches, then those of the batch being connected.  Between two operations (`idle`) the ids
+on the wire are the received ids. -/
+theorem forward_ids_on_wire (ca cb : Cfg) (f : Fwd) (h : FReachable .asCoded ca cb f)
+    (hne : f.ph ≠ .done .errSend) :
+    portIds f.b.emitted ++ curRest f.b =
+      f.batches.flatMap (·.ids) ++ (match f.ph with | .connect ids _ => ids | _ => []) ∧
+    (f.ph = .idle → portIds f.b.emitted = f.batches.flatMap (·.ids)) := by
+  have hw := wire_reachable .asCoded ca cb f h hne
+  have hp := fport_reachable .asCoded ca cb f h
+  have hc := (fjoint_reachable .asCoded ca cb f h).core
+  have hb : f.batches.flatMap (fun B => B.ports.map (·.id)) = f.batches.flatMap (·.ids) :=
+    flatMap_ids_congr f.batches (fun B hB => (hp.batches B hB).ids)
+  have hconn : f.ph.connIds = (match f.ph with | .connect ids _ => ids | _ => []) := by
+    cases hph : f.ph with
+    | connect ids ports => simp only [Phase.connIds]; exact hp.connIds ids ports hph
+    | _ => rfl
+  constructor
+  · rw [hw, wireIds, hb, hconn]
+  · intro hph
+    have hcr : curRest f.b = [] := by
+      apply curRest_of_kind
+      rw [hc.cur, hph]; simp [Phase.curKind]
+    rw [hcr, List.append_nil] at hw
+    rw [hw, wireIds, hb, hph]; simp [Phase.connIds]
+
+/-- non-vacuity, and seeded bug (a): a batch of two requests with ids 10 and 20 is forwarded on the fresh ports
+5 and 6.  As coded, the task of request 10 awaits the connect that carries id 10; with the reversed pairing
+(`reqs.zip(connects.rev())`) it awaits the connect that carries id 20 — `forward_requests_paired` fails for the
+mutated pairing, kernel-checked. -/
+def portsCfg : Cfg := { chunk := 16, limit := 16, maxData := 64, maxPorts := 8 }
+def portsRun : List FLabel :=
+  [.up (.startConnect [10, 20]), .up .request, .up .emit, .up .muxRecv, .recvAny,
+   .alloc 5, .alloc 6, .connect, .down .request, .emit,
+   .connResp 0 .accepted, .connResp 1 (.failed true), .acceptDone 0 true]
+
+example : (frun .asCoded portsCfg portsCfg (finit portsCfg portsCfg) portsRun).tasks =
+      [{ upIdx := 0, upId := 10, out := ⟨5, 10⟩, resp := some .accepted, st := .piped },
+       { upIdx := 1, upId := 20, out := ⟨6, 20⟩, resp := some (.failed true), st := .rejected true }] ∧
+    (frun .asCoded portsCfg portsCfg (finit portsCfg portsCfg) portsRun).b.emitted = [.ports [10, 20] true true] ∧
+    portIds (frun .asCoded portsCfg portsCfg (finit portsCfg portsCfg) portsRun).b.emitted = [10, 20] ∧
+    (frun .asCoded portsCfg portsCfg (finit portsCfg portsCfg) portsRun).batches.flatMap (·.ids) = [10, 20] ∧
+    (frun .asCoded portsCfg portsCfg (finit portsCfg portsCfg) portsRun).ph = .idle := by decide
+
+example : (frun .reversed portsCfg portsCfg (finit portsCfg portsCfg) portsRun).tasks =
+      [{ upIdx := 0, upId := 10, out := ⟨6, 20⟩, resp := some .accepted, st := .piped },
+       { upIdx := 1, upId := 20, out := ⟨5, 10⟩, resp := some (.failed true), st := .rejected true }] ∧
+    ¬ (∀ t ∈ (frun .reversed portsCfg portsCfg (finit portsCfg portsCfg) portsRun).tasks, t.out.id = t.upId) := by
+  decide
+
+end Remoc.Link
+
+/-! ### `forward_preserves_wiring`, with the forwarding hops derived from the forwarder model -/
+
+namespace Remoc.Wiring
+
+/-- **The forwarder model performs exactly the hop the wiring model assumes.**  For a batch recorded in a
+reachable state of the forwarder model (as coded) and the received requests `reqs` (ids as received):
+the batch sent on and the pipes of the spawned pairs are `forwardHop reqs fresh` for the ports `fresh` the
+forwarder allocated, and these are pairwise distinct and as many as the requests — the hypotheses
+`forward_preserves_wiring` makes about a hop. -/
+theorem forward_model_hop (ca cb : Link.Cfg) (f : Link.Fwd) (h : Link.FReachable .asCoded ca cb f)
+    (B : Link.Batch) (hB : B ∈ f.batches) (reqs : List Req) (hr : reqs.map (·.id) = B.ids) :
+    hopOfBatch B reqs = forwardHop reqs (B.ports.map (·.port)) ∧
+    (B.ports.map (·.port)).Nodup ∧ (B.ports.map (·.port)).length = reqs.length := by
+  obtain ⟨hids, hnd, hpairs, _⟩ := (Link.fport_reachable .asCoded ca cb f h).batches B hB
+  have hlen : B.ports.length = reqs.length := by
+    have := congrArg List.length (hids.trans hr.symm); simpa using this
+  have hil : B.ids.length = B.ports.length := by rw [← hids]; simp
+  refine ⟨?_, hnd, by simpa using hlen⟩
+  simp only [hopOfBatch, forwardHop, Hop.mk.injEq]
+  constructor
+  · exact (out_zip B.ports reqs (hids.trans hr.symm)).symm
+  · rw [hpairs]
+    simp only [Link.pairUp]
+    rw [pipes_pairFrom 0 B.ids B.ports reqs hil (by simpa using hlen.symm)]
+    simp
+
+/-- batches recorded along a chain of forwarders: each one received the ids the previous one's `connect` carried -/
+def chained : List Nat → List Link.Batch → Prop
+  | _, [] => True
+  | ids, B :: rest => B.ids = ids ∧ chained (B.ports.map (·.id)) rest
+
+theorem chained_ids (ids : List Nat) (hops : List Link.Batch)
+    (hmodel : ∀ B ∈ hops, B.ports.map (·.id) = B.ids) (hch : chained ids hops) : ∀ B ∈ hops, B.ids = ids := by
+  induction hops generalizing ids with
+  | nil => intro B hB; simp at hB
+  | cons B0 rest ih =>
+    intro B hB
+    obtain ⟨h0, hrest⟩ := hch
+    simp only [List.mem_cons] at hB
+    rcases hB with rfl | hB
+    · exact h0
+    · have := ih (B0.ports.map (·.id)) (fun B hB => hmodel B (by simp [hB])) hrest B hB
+      rw [this, hmodel B0 (by simp), h0]
+
+/-- **`wiring_bijective`, forwarded — derived from the forwarder model.**  Along any chain of `chmux::forward`
+hops, each a batch recorded in a reachable state of the forwarder model and each receiving what its predecessor
+sent, the received half that carries `p` is connected — through the pipes of the forwarders — to exactly the
+half that was serialized with `p`.  Freshness, distinctness and id preservation of every hop are consequences
+of the model (`forward_requests_paired`), no longer hypotheses. -/
+theorem forward_preserves_wiring_of_model (sv : List (Half × Port)) (hnd : (sv.map (·.2)).Nodup)
+    (hops : List Link.Batch)
+    (hmodel : ∀ B ∈ hops, ∃ ca cb f, Link.FReachable .asCoded ca cb f ∧ B ∈ f.batches)
+    (hch : chained (sv.map (·.2)) hops) (h : Half) (p : Port) (hm : (h, p) ∈ sv) :
+    connectedVia sv (hops.map (fun B => B.ports.map (·.port))) p = some h := by
+  have hok : ∀ B ∈ hops, B.ports.map (·.id) = B.ids ∧ (B.ports.map (·.port)).Nodup := by
+    intro B hB
+    obtain ⟨ca, cb, f, hr, hBm⟩ := hmodel B hB
+    obtain ⟨h1, h2, _, _⟩ := (Link.fport_reachable .asCoded ca cb f hr).batches B hBm
+    exact ⟨h1, h2⟩
+  have hids := chained_ids _ hops (fun B hB => (hok B hB).1) hch
+  apply forward_preserves_wiring sv hnd _ _ h p hm
+  intro fr hfr
+  obtain ⟨B, hB, rfl⟩ := List.mem_map.mp hfr
+  refine ⟨(hok B hB).2, ?_⟩
+  have := congrArg List.length ((hok B hB).1.trans (hids B hB))
+  simp only [List.length_map] at this ⊢
+  omega
+
+/-- seeded bug (a) in wiring terms: two halves on ports 10 and 20 are forwarded on the fresh ports 5 and 6.  As
+coded, port 5 (which carries id 10 to the far endpoint) is piped to request port 10; with the reversed pairing it is
+piped to request port 20: the far half `10` ends up connected to the half serialized with `20`. -/
+def svAB : List (Half × Port) := [({ chan := 1 }, 10), ({ chan := 2 }, 20)]
+def batchOf (v : Link.Pairing) : Link.Batch :=
+  { ids := [10, 20], ports := [⟨5, 10⟩, ⟨6, 20⟩], pairs := Link.pairUp v [10, 20] [⟨5, 10⟩, ⟨6, 20⟩] }
+
+example : hopOfBatch (batchOf .asCoded) (batch svAB) = forwardHop (batch svAB) [5, 6] ∧
+    upstream (hopOfBatch (batchOf .asCoded) (batch svAB)) 5 = some 10 ∧
+    ownerOf svAB 10 = some { chan := 1 } := by decide
+
+example : upstream (hopOfBatch (batchOf .reversed) (batch svAB)) 5 = some 20 ∧
+    ownerOf svAB 20 = some { chan := 2 } ∧
+    hopOfBatch (batchOf .reversed) (batch svAB) ≠ forwardHop (batch svAB) [5, 6] := by decide
 
 end Remoc.Wiring
